@@ -91,7 +91,51 @@ CLAIMED["C16"] = dict(
    technique="Lean 4 induction over API histories + regenerated frame facts; differential history replay with LeakSanitizer",
    ref="4 C16")
 
-PENDING = {}
+CLAIMED["C03"] = dict(
+   text="Lean theorems over the canonicalisation model (rank assignment, dropping empties, sort by (length desc, name) with strcmp): the sorted list is the same for every permutation "
+        "when names are pairwise distinct (sort uniqueness), hence for ANY downstream pipeline that sees only the canonical (name, residues) list the rows found by name are the same "
+        "(order_independent); input order is restored by rank; `rank` use sites regenerated from the source and pinned. Tie: unit correspondence of sort_by_len_name / essential "
+        "check on adversarial keys; end-to-end column-membership comparison on shuffled inputs below and above 100 sequences, CANON/TASKS hook observation.",
+   note="qsort trusted to be a correct sort. n >= 100: the k-means tree is a function of the canonical list in the model (a parameter), observed on the code via the TASKS hook.",
+   technique="Lean 4 sort-uniqueness proof (mergeSort on a strict total order) + frame fact by `decide`; differential correspondence; permutation oracle",
+   ref="4 C03")
+CLAIMED["C05"] = dict(
+   category="proof",
+   text="Proved on the fault-aware models: the reader model never takes an undefined-behaviour path on any byte string (single file and file lists), every ASCII letter maps to "
+        "a code inside the tables it indexes (executed alphabets), expansion of well-shaped Hirschberg paths stays inside the path buffer, overflowing penalties are rejected, "
+        "writers index rows in bounds. Memory safety of the C text itself is NOT proved: it is carried by (a) bit-exact correspondence of the reader model with the real readers on a "
+        "malformed stream and (b) a sanitizer-instrumented search: ASan+UBSan+LSan CLI on structure-aware mutations x option strings x bad paths with hang detection, valgrind "
+        "memcheck subset (thorough).",
+   note="PARTIAL by nature: heap behaviour of libc/libgomp, stack depth of recursions, OOM paths are not modelled; the theorem part covers readers/tables/path expansion only.",
+   technique="Lean 4 proofs about fault-aware models + sanitizer-instrumented differential/fuzz search",
+   ref="4 C05")
+CLAIMED["C07"] = dict(
+   text="Executable Lean model of the nine DP kernels, both Hirschberg controllers, profiles and do_align over a generic score carrier; the Float32 instance is bit-identical to the "
+        "C code on every generated rectangle (unit correspondence). Theorems: aln_runner = aln_runner_serial whenever every meetup returns a real transition (and a proved "
+        "counterexample state where the missing `return` matters), and H1: for any kernels passing the executable meetup contract the path is well shaped (`pathOK`), hence valid "
+        "columns. Optimality itself (H3-H5) is NOT proved: it is checked by an independent full-matrix reference DP that certifies a margin robust to every reading of the "
+        "terminal-gap costs; only certified cases are compared (seq-seq, seq-profile, profile-profile via groups of identical copies, lengths on both sides of 500).",
+   note="PARTIAL: optimality is oracle-checked, not proved. Known finding C07-terminal-gap-split (inconsistent terminal-gap objective). A-float.",
+   technique="Lean 4 proofs about the Hirschberg controller over abstract kernels; bit-exact Float32 model correspondence; independent-DP certified oracle",
+   ref="4 C07")
+CLAIMED["C08"] = dict(
+   text="Lean theorems: every admissible default parameter set satisfies Φ (regenerated tables, `decide`); under Φ the gap-free diagonal of (s,s) strictly beats every other valid "
+        "column list even under the most favourable reading of its gap costs (C08_diag_unique_opt, also scaled for groups); if every merge uses the diagonal the final rows are the "
+        "input strings for any tree (C08_identical_msa_nogaps). That the implementation returns the strict optimum is C07's tie. Search: all-identical inputs (IUPAC, all-N, all-X, "
+        "homopolymers), 2..500 copies, lengths to 5000, all types, threads 1..16, both APIs.",
+   note="inherits C07's partiality (optimality of the Hirschberg implementation is oracle-checked). User penalties are outside the property.",
+   technique="Lean 4 combinatorial inequality over regenerated matrices; end-to-end oracle",
+   ref="4 C08")
+CLAIMED["C17"] = dict(
+   text="Lean theorems: compare_pair's six counters equal the cardinalities of the specification relations, score = 100*|rel R ∩ rel T|/|rel R| (exact rational), 0 <= score <= 100, "
+        "score 100 for alignments equal up to row order and all-gap columns, invariance under row permutations for uniquely named NUL-free names. Tie: unit correspondence of "
+        "compare_pair / kalign_msa_compare (counters and binary32 score bits); oracle: independent set-based implementation of the definition on generated pairs.",
+   note="binary32 narrowing of the score is tied by correspondence only. Inputs outside the premise (different sequence sets, gap-free files) are outside the property.",
+   technique="Lean 4 counting proofs + sort uniqueness; differential correspondence; independent-definition oracle",
+   ref="4 C17")
+
+PENDING = {"C11": "model and proofs for the bit-parallel kernels are being built (slice B); check not registered yet",
+           "C12": "UPGMA clade model/proofs are being built (slice B); check not registered yet"}
 
 def main():
     props = [json.loads(l) for l in open(os.path.join(V, "properties.jsonl"))]
